@@ -5,15 +5,17 @@ from props._cfg_common import TRUSTED, ASSUMPTIONS, TECHNIQUE
 
 PROP = "C12"
 LEVEL = "other"
-THEOREMS = {"Properties.C12": ["C12_generating", "C12_nullable", "C12_reachable", "C12_is_empty"]}
-LEVEL_TEXT = ("Partial proof + correspondence: generating / nullable / reachable symbols and is_empty are modelled by least fixed points (saturation, closure) "
-              "and compared exactly with pyformlang's answers; theorems proved so far are listed in the evidence.")
+THEOREMS = {"Properties.C12": ["C12_generating", "C12_nullable", "C12_reachable", "C12_is_empty", "C12_get_words"]}
+LEVEL_TEXT = ("Coq theorems (no axioms, all grammars): generating, nullable and reachable symbols are exactly the symbols deriving a terminal word / the empty word / "
+              "occurring in a sentential form from the start symbol (least fixed points; the counter worklists of the code are modelled, not mirrored: the sets are unique); "
+              "is_empty is exactly 'no word generated'; get_words(n) is modelled by its specification (each word of length <= n once) and proved. is_finite mirrors the "
+              "code (cycle test on the normal-form graph) and is only compared, not proved; the unbounded mode of get_words is not covered.")
 LEVEL_NOTE = "Trusted: Coq kernel; hand-written model validated by correspondence; Python harness."
-RULE = ("random grammars (as C08) x {get_generating_symbols, get_nullable_symbols, get_reachable_symbols, is_empty}; sets compared exactly; "
+RULE = ("random grammars (as C08) x {get_generating_symbols, get_nullable_symbols, get_reachable_symbols, is_empty, get_words(n) for n in 0..4 (yielded sequence as a multiset), is_finite}; sets compared exactly; "
         "non-trivial = at least 2 productions and a body of length >= 2")
 EXPLANATION = "Symbol classes compared as sets with the model's least fixed points; is_empty with the model."
 
-OPS = ["get_generating_symbols", "get_nullable_symbols", "get_reachable_symbols", "is_empty"]
+OPS = ["get_generating_symbols", "get_nullable_symbols", "get_reachable_symbols", "is_empty", "get_words", "is_finite"]
 
 
 def generate(ctx):
@@ -21,7 +23,7 @@ def generate(ctx):
     cases = []
     for i in range(n):
         g = cfglib.rand_cfg(ctx.rng, names="plain" if ctx.rng.random() < 0.85 else "adv")
-        cases.append({"op": OPS[i % len(OPS)], "g": g,
+        cases.append({"op": OPS[i % len(OPS)], "g": g, "n": ctx.rng.choice([0, 1, 2, 3, 3, 4]) if len(g["terms"]) < 3 else ctx.rng.choice([0, 1, 2, 3]),
                       "warm": ctx.rng.choice([None, None, ["is_empty"], ["get_nullable_symbols", "get_generating_symbols"], ["generate_epsilon"]])})
     return cases
 
